@@ -42,10 +42,30 @@ def _check_read(t: Tally, RPD, buf: bytes, bits: str, p: int, n: int):
                                   "pos_after": r.pos, "buffer_unchanged": bytes(r) == buf})
 
 
+def _in_thread(fn):
+    """Run fn() on another thread than the one that imported the library, wait for it, and pass an escaping exception on."""
+    import threading
+    box = []
+
+    def body():
+        try:
+            fn()
+        except BaseException as e:  # noqa: BLE001
+            box.append(e)
+    th = threading.Thread(target=body)
+    th.start()
+    th.join()
+    if box:
+        raise box[0]
+
+
 def _task_small(task):
     from space_packet_parser.packets import RawPacketData as RPD
     t = Tally()
     with case_alarm(600):
+        # whichever thread reads: every (p, n) of one 3-byte buffer read on a worker thread (a reader used from a thread pool)
+        buf0 = bytes((0xA5, 0x3C, 0x0F))
+        _in_thread(lambda: [_check_read(t, RPD, buf0, _bits(buf0), p, n) for p in range(25) for n in range(25 - p)])
         for buf in task["bufs"]:
             bits = _bits(buf)
             L = len(bits)
@@ -353,7 +373,7 @@ def run(ctx):
                   "walking-1/walking-0 over every bit for lengths 3..%d; (c) aligned and unaligned reads on 64, 4096, 65542-byte buffers; "
                   f"(d) histories on ONE object: every sequence of {depth} reads over an alphabet of (position, width, kind) with the cursor set freely before each read, "
                   f"buffers of {'3, 8, 16' if ctx.quick else '3, 6, 8, 16, 32 bytes, and every sequence of 4 reads on 3'} bytes, cached header properties touched at varying points; "
-                  "(e) in a fresh interpreter: for every shape (pos mod 8 in 0..7, width 1..72, 80, 96, 127, 128) a failing over-read first, then in-range reads of that shape; (f) in a fresh interpreter: every (position 0..39, width 0..40) first used with an equal float / Fraction / Decimal / bool position and/or width (not judged), then with the integers" % (4 if ctx.quick else 6)),
+                  "(e) in a fresh interpreter: for every shape (pos mod 8 in 0..7, width 1..72, 80, 96, 127, 128) a failing over-read first, then in-range reads of that shape; (g) every (p, n) of a 3-byte buffer read on a worker thread; (f) in a fresh interpreter: every (position 0..39, width 0..40) first used with an equal float / Fraction / Decimal / bool position and/or width (not judged), then with the integers" % (4 if ctx.quick else 6)),
         "rule": ("one evaluation = one read (int or bytes) of one (buffer, p, n); distinct non-trivial = distinct small buffers fully "
                  "swept plus distinct (length, p, n) windows swept over the content family"),
     }
